@@ -576,3 +576,75 @@ Proof.
     specialize (Hrec j ltac:(lia)). rewrite (nth_error_nth _ _ rc Hn) in Hrec. destruct (nth j pairs dpair) as [qr rr].
     destruct (one_line_grow j rc ref qr rr Hng Hrec) as (_ & HE & _). apply ins_of_cigar_range in Hin. unfold rec_E in HE. lia.
 Qed.
+
+(* ================= --skip-insertions = the toMultiAlign --pad row ================= *)
+Lemma map_repeat' {A B} (f : A -> B) a n : map f (repeat a n) = repeat (f a) n.
+Proof. induction n as [|n IH]; [reflexivity|]. cbn. rewrite IH. reflexivity. Qed.
+Lemma walk2_false_walk ops : forall q r sq ref x y, walk2 false ops q r sq ref = Some (x, y) ->
+  exists row, walk ops q sq = Some row /\ x = map cell_byte row.
+Proof.
+  induction ops as [|[o len] t IH]; intros q r sq ref x y H; cbn [walk2 walk] in *.
+  - injection H as <- <-. exists []. split; reflexivity.
+  - destruct o.
+    + destruct (slice sq q len) as [a|] eqn:Ea; [|discriminate]. destruct (slice ref r len) as [b|]; [|discriminate].
+      destruct (walk2 false t (q + len) (r + len) sq ref) as [[x' y']|] eqn:Ew; [|discriminate]. injection H as <- <-.
+      destruct (IH _ _ _ _ _ _ Ew) as (row & -> & ->). exists (map Base a ++ row). split; [reflexivity|].
+      rewrite map_app, map_map. cbn [cell_byte]. rewrite map_id. reflexivity.
+    + apply (IH _ _ _ _ _ _ H).
+    + destruct (slice ref r len) as [b|]; [|discriminate].
+      destruct (walk2 false t q (r + len) sq ref) as [[x' y']|] eqn:Ew; [|discriminate]. injection H as <- <-.
+      destruct (IH _ _ _ _ _ _ Ew) as (row & -> & ->). exists (repeat Gap len ++ row). split; [reflexivity|].
+      rewrite map_app, map_repeat'. reflexivity.
+    + destruct (slice ref r len) as [b|]; [|discriminate].
+      destruct (walk2 false t q (r + len) sq ref) as [[x' y']|] eqn:Ew; [|discriminate]. injection H as <- <-.
+      destruct (IH _ _ _ _ _ _ Ew) as (row & -> & ->). exists (repeat Star len ++ row). split; [reflexivity|].
+      rewrite map_app, map_repeat'. reflexivity.
+    + apply (IH _ _ _ _ _ _ H).
+    + apply (IH _ _ _ _ _ _ H).
+    + apply (IH _ _ _ _ _ _ H).
+    + destruct (slice sq q len) as [a|] eqn:Ea; [|discriminate]. destruct (slice ref r len) as [b|]; [|discriminate].
+      destruct (walk2 false t (q + len) (r + len) sq ref) as [[x' y']|] eqn:Ew; [|discriminate]. injection H as <- <-.
+      destruct (IH _ _ _ _ _ _ Ew) as (row & -> & ->). exists (map Base a ++ row). split; [reflexivity|].
+      rewrite map_app, map_map. cbn [cell_byte]. rewrite map_id. reflexivity.
+    + destruct (slice sq q len) as [a|] eqn:Ea; [|discriminate]. destruct (slice ref r len) as [b|]; [|discriminate].
+      destruct (walk2 false t (q + len) (r + len) sq ref) as [[x' y']|] eqn:Ew; [|discriminate]. injection H as <- <-.
+      destruct (IH _ _ _ _ _ _ Ew) as (row & -> & ->). exists (map Base a ++ row). split; [reflexivity|].
+      rewrite map_app, map_map. cbn [cell_byte]. rewrite map_id. reflexivity.
+Qed.
+Lemma one_line_false_toma rc ref qrow rrow : one_line_plus_ref false rc ref = Some (qrow, rrow) ->
+  exists row, one_line (s_pos rc) (s_cigar rc) (s_seq rc) (length ref) = Some row /\ qrow = map cell_byte row.
+Proof.
+  unfold one_line_plus_ref, one_line. intros H. destruct (Nat.ltb (length ref) (s_pos rc)); [discriminate|].
+  destruct (walk2 false (s_cigar rc) 0 (s_pos rc) (s_seq rc) ref) as [[x y]|] eqn:Ew; [|discriminate].
+  destruct (walk2_false_walk _ _ _ _ _ _ _ Ew) as (row & -> & ->).
+  assert (EL : length (repeat 42%N (s_pos rc) ++ map cell_byte row) = length (repeat Star (s_pos rc) ++ row))
+    by (rewrite !app_length, !repeat_length, map_length; reflexivity).
+  rewrite EL in H. destruct (length (repeat Star (s_pos rc) ++ row) <=? length ref); [|discriminate]. injection H as <- _.
+  eexists. split; [reflexivity|]. rewrite !map_app, !map_repeat'. reflexivity.
+Qed.
+
+Theorem skip_ins_eq_toma_pad ref block R Q : block <> [] -> block_skip_ins ref block = Some (R, Q) ->
+  R = ref /\ exists raw, seq_from_block (length ref) block = Some raw /\ Q = fasta_seq true false 0 0 raw.
+Proof.
+  intros Hne H. unfold block_skip_ins in H.
+  destruct (all_some (map (fun rc => one_line_plus_ref false rc ref) block)) as [pairs|] eqn:Ea; [|discriminate]. injection H as <- <-.
+  split; [reflexivity|]. apply all_some_spec in Ea.
+  assert (Hrows : exists rows, map (fun r => one_line (s_pos r) (s_cigar r) (s_seq r) (length ref)) block = map Some rows /\
+                               map fst pairs = map (map cell_byte) rows).
+  { clear Hne. revert pairs Ea. induction block as [|rc t IH]; intros [|[qr rr] pt] Ea; try discriminate; [exists []; split; reflexivity|].
+    cbn [map] in Ea. injection Ea as E1 E2. destruct (IH pt E2) as (rows & H1 & H2).
+    destruct (one_line_false_toma rc ref qr rr E1) as (row & Hr & ->). exists (row :: rows). cbn [map fst]. rewrite Hr, H1, H2. split; reflexivity. }
+  destruct Hrows as (rows & H1 & H2). unfold seq_from_block.
+  assert (Eas : all_some (map (fun r => one_line (s_pos r) (s_cigar r) (s_seq r) (length ref)) block) = Some rows).
+  { rewrite H1. clear. induction rows as [|r t IH]; [reflexivity|]. cbn [map all_some]. rewrite IH. reflexivity. }
+  rewrite Eas. cbn [option_map]. eexists. split; [reflexivity|]. unfold fasta_seq. f_equal. rewrite H2.
+  (* flatten_block and flatten_rows coincide on rows of the reference length *)
+  assert (Hlen : Forall (fun r => length r = length ref) (map (map cell_byte) rows)).
+  { apply Forall_forall. intros r Hr. apply in_map_iff in Hr. destruct Hr as (row & <- & Hrow). rewrite map_length.
+    assert (Hin : In (Some row) (map Some rows)) by (apply in_map; exact Hrow). rewrite <- H1 in Hin. apply in_map_iff in Hin.
+    destruct Hin as (rc & Hrc & _). apply (one_line_cell _ _ _ _ _ Hrc). }
+  destruct rows as [|r0 [|r1 rt]].
+  - destruct block; [contradiction|discriminate].
+  - cbn [map flatten_rows]. apply flatten_block_single.
+  - unfold flatten_block, flatten_rows. cbn [map]. inversion Hlen as [|? ? Hl0 _]; subst. cbn [map] in Hl0. rewrite Hl0. reflexivity.
+Qed.
